@@ -424,6 +424,20 @@ class StmtMixin(object):
         return [(s2, ('raise', r.exc) if isinstance(r, Raised) else None)
                 for s2, r in self.store_subscript(s, vals[0], vals[1], v, tgt)]
       return self.ctl_of(self.eval_list(st, [tgt.value, tgt.slice]), fin)
+    if isinstance(tgt, (ast.Tuple, ast.List)) and isinstance(v, VRef) and v.cls in ('list', 'tuple') and \
+        'ValueError' in self.implicit_opt_in() and not getattr(self, '_in_unpack', False):
+      # the contract opted in: a wrong number of values is the ValueError Python raises, not a safety failure
+      out = []
+      for s, ok in self.branch(st, self.list_len(st, v) == len(tgt.elts)):
+        if not ok:
+          out.append((s, ('raise', self.raise_builtin(s, 'ValueError', 'unpack').exc)))
+          continue
+        self._in_unpack = True
+        try:
+          out.extend(self.assign(s, tgt, v))
+        finally:
+          self._in_unpack = False
+      return out
     if isinstance(tgt, (ast.Tuple, ast.List)):
       items = self.unpack(st, v, len(tgt.elts), tgt)
       if isinstance(items, Raised):
